@@ -43,6 +43,7 @@ var basePreamble = []string{
 	"(declare-fun elemptr (Int Int) Int)",
 	"(declare-fun fieldptr (Int Int) Int)",
 	"(declare-fun strkey ((Array Int Int) Int Int) Int)",
+	"(declare-fun streq ((Array Int Int) Int Int (Array Int Int) Int Int) Bool)",
 	"(declare-fun ifacekey (Int Int) Int)",
 	"(declare-fun identityboxed (Int) Bool)",
 	"(define-fun emptybase () (Array Int Int) ((as const (Array Int Int)) 0))",
@@ -255,6 +256,9 @@ func (e *Engine) contractTexts(fn *ssa.Function, fc *FuncContract) []string {
 			}
 			if lc.Decreases != nil {
 				texts = append(texts, lc.Decreases.Text)
+			}
+			for _, cl := range lc.Ensures {
+				texts = append(texts, cl.Text)
 			}
 		}
 		for _, cs := range c.CallSites {
